@@ -53,6 +53,8 @@ type step struct {
 	K      []int           `json:"k"`
 	P      json.RawMessage `json:"p"`
 	Op     int             `json:"op"`
+	Fin    bool            `json:"fin"`
+	Z1     bool            `json:"z1"` // permessage-deflate negotiated and the sender set RSV1 on this frame
 	Big    string          `json:"big"`
 	Abs    bool            `json:"abs"`
 	Cut    []outcome       `json:"cut"`
@@ -65,12 +67,14 @@ type message struct {
 	Type  int    `json:"type"`
 	Len   int    `json:"len"`
 	Frags []frag `json:"frags"`
+	Z     bool   `json:"z"` // delivered as a compressed message: the payload is what its DEFLATE stream inflates to
 }
 
 type wsCase struct {
 	Role  string `json:"role"`
 	Limit int64  `json:"limit"`
 	Fam   string `json:"fam"`
+	Pmd   bool   `json:"pmd"` // permessage-deflate negotiated in the opening handshake (RFC 7692)
 	// Bufsize is the read buffer size the application configures (0: default). Where the family has it as a
 	// dimension (Bufdim) every run of the case uses it; otherwise the replayer sweeps bufSweep on its own.
 	// The expectation never depends on it (WsReader: no action reads bufsize; BufferBlind).
@@ -86,7 +90,8 @@ type wsCase struct {
 }
 
 // expand renders one frame: header LD, masking key, payload LD (masked here: RFC 6455 5.3 is an XOR over bytes).
-func expand(s step, seed int) (frame []byte, headerLen int) {
+// payload, when not nil, replaces the expansion of the payload LD (same length): the piece of a DEFLATE stream.
+func expand(s step, seed int, payload []byte) (frame []byte, headerLen int) {
 	h, err := ld.Parse(s.H)
 	if err != nil {
 		rp.Bug("header LD: %v", err)
@@ -102,6 +107,12 @@ func expand(s step, seed int) (frame []byte, headerLen int) {
 	pb, err := p.Expand(seed)
 	if err != nil {
 		rp.Bug("payload LD: %v", err)
+	}
+	if payload != nil {
+		if len(payload) != len(pb) {
+			rp.Bug("payload of %d bytes for a frame of %d", len(payload), len(pb))
+		}
+		pb = payload
 	}
 	out := append([]byte(nil), hb...)
 	switch len(s.K) {
@@ -129,6 +140,106 @@ func expand(s step, seed int) (frame []byte, headerLen int) {
 	}
 	headerLen = len(out)
 	return append(out, pb...), headerLen
+}
+
+// ---------------------------------------------------------------------------------------------
+// The peer's compressor (RFC 7692 7.2.1), by hand: a message of w octets on the wire is a DEFLATE stream of stored
+// blocks (header octet 0, LEN, NLEN, data) followed by the one octet that is left of the empty stored block
+// 00 00 00 ff ff after its last four octets are removed. w = 1 is the empty message; 2..5 octets cannot be made so.
+
+func zPlainLen(w int) (plain, blocks int, ok bool) {
+	if w == 1 {
+		return 0, 0, true
+	}
+	for k := 1; w-1-5*k >= 0; k++ {
+		if w-1-5*k <= 65535*k {
+			return w - 1 - 5*k, k, true
+		}
+	}
+	return 0, 0, false
+}
+
+// zPlain is the content of the compressed message of w wire octets whose first frame is step id.
+func zPlain(w, id, seed int) ([]byte, bool) {
+	n, _, ok := zPlainLen(w)
+	if !ok {
+		return nil, false
+	}
+	return ld.FillBytes(n, id, seed), true
+}
+
+func zStream(w, id, seed int) ([]byte, bool) {
+	plain, ok := zPlain(w, id, seed)
+	if !ok {
+		return nil, false
+	}
+	_, blocks, _ := zPlainLen(w)
+	var out []byte
+	for k := 0; k < blocks; k++ {
+		n := len(plain)
+		if k < blocks-1 && n > 65535 {
+			n = 65535
+		}
+		if n > 65535 {
+			rp.Bug("stored block of %d bytes", n)
+		}
+		out = append(out, 0, byte(n), byte(n>>8), ^byte(n), ^byte(n>>8))
+		out = append(out, plain[:n]...)
+		plain = plain[n:]
+	}
+	out = append(out, 0)
+	if len(out) != w || len(plain) != 0 {
+		rp.Bug("DEFLATE stream of %d octets for %d", len(out), w)
+	}
+	return out, true
+}
+
+// zGroups: which frames carry the pieces of one compressed message - the sender's view: a data frame with RSV1 (and
+// the extension negotiated) starts one, continuation frames go on with the message that is open, FIN ends it.
+func zGroups(steps []step) [][]int {
+	var groups [][]int
+	cur := -1
+	for k, s := range steps {
+		switch s.Op {
+		case 1, 2:
+			cur = -1
+			if s.Z1 && s.Big == "no" {
+				groups = append(groups, []int{k})
+				cur = len(groups) - 1
+			}
+		case 0:
+			if cur >= 0 && s.Big == "no" {
+				groups[cur] = append(groups[cur], k)
+			} else {
+				cur = -1
+			}
+		default:
+			continue
+		}
+		if s.Fin {
+			cur = -1
+		}
+	}
+	return groups
+}
+
+// wantPayload is the content of a message the specification delivers.
+func wantPayload(w message, seed int) []byte {
+	if w.Z {
+		p, ok := zPlain(w.Len, w.Frags[0].ID, seed)
+		if !ok {
+			rp.Bug("the specification delivers a compressed message of %d octets: not a DEFLATE stream (alphabet)", w.Len)
+		}
+		return p
+	}
+	var want []byte
+	for _, f := range w.Frags {
+		want = append(want, ld.FillBytes(f.N, f.ID, seed)...)
+	}
+	if len(want) != w.Len {
+		rp.Bug("message fragments sum to %d, len %d", len(want), w.Len)
+	}
+	return want
 }
 
 // ---------------------------------------------------------------------------------------------
@@ -270,7 +381,7 @@ func (h *hijackRW) Hijack() (net.Conn, *bufio.ReadWriter, error) {
 }
 
 // upgraded makes the server connection with the real Upgrader (opening handshake of RFC 6455 4.2.1 answered over conn).
-func upgraded(conn net.Conn, v variant) *websocket.Conn {
+func upgraded(conn net.Conn, v variant, pmd bool) *websocket.Conn {
 	req, err := http.NewRequest("GET", "http://verif.example/ws", nil)
 	if err != nil {
 		rp.Bug("request: %v", err)
@@ -281,7 +392,10 @@ func upgraded(conn net.Conn, v variant) *websocket.Conn {
 	req.Header.Set("Sec-Websocket-Key", "dGhlIHNhbXBsZSBub25jZQ==")
 	w := &hijackRW{conn: conn, hdr: http.Header{},
 		brw: bufio.NewReadWriter(bufio.NewReaderSize(conn, v.Hijack), bufio.NewWriterSize(conn, 4096))}
-	up := websocket.Upgrader{ReadBufferSize: v.ReadBuf, WriteBufferSize: 1024}
+	if pmd {
+		req.Header.Set("Sec-Websocket-Extensions", "permessage-deflate; server_no_context_takeover; client_no_context_takeover")
+	}
+	up := websocket.Upgrader{ReadBufferSize: v.ReadBuf, WriteBufferSize: 1024, EnableCompression: pmd}
 	ws, err := up.Upgrade(w, req, nil)
 	if err != nil {
 		rp.Bug("the Upgrader refused a correct opening handshake: %v", err)
@@ -302,13 +416,16 @@ func drive(cs *wsCase, wire []byte, v variant, seed int, maxMsgs int) observed {
 		if cs.Role != "server" {
 			rp.Bug("the Upgrader makes server connections only")
 		}
-		ws = upgraded(a, v)
+		ws = upgraded(a, v, cs.Pmd)
 		skip = a.Out.Len() // the HTTP response
 		if skip < 4 || !bytes.HasSuffix(a.Out.Bytes(), []byte("\r\n\r\n")) {
 			rp.Bug("no HTTP response written by the Upgrader: %q", a.Out.Bytes())
 		}
+		if cs.Pmd != bytes.Contains(bytes.ToLower(a.Out.Bytes()), []byte("permessage-deflate")) {
+			rp.Bug("extension negotiated by the Upgrader is not %v: %q", cs.Pmd, a.Out.Bytes())
+		}
 	} else {
-		ws = websocket.VerifNewConn(a, cs.Role == "server", v.ReadBuf, 0, false)
+		ws = websocket.VerifNewConn(a, cs.Role == "server", v.ReadBuf, 0, cs.Pmd)
 	}
 	if cs.Limit > 0 {
 		ws.SetReadLimit(cs.Limit)
@@ -433,10 +550,7 @@ func compareMsgs(cs *wsCase, o observed, seed int, wantMsgs []message) (string, 
 			return fmt.Sprintf("message %d delivered (type %d, %d bytes) but the specification delivers only %d message(s)", i+1, m.Type, len(m.Payload), len(wantMsgs)), "extra"
 		}
 		w := wantMsgs[i]
-		var want []byte
-		for _, f := range w.Frags {
-			want = append(want, ld.FillBytes(f.N, f.ID, seed)...)
-		}
+		want := wantPayload(w, seed)
 		if m.Type != w.Type {
 			return fmt.Sprintf("message %d has type %d, want %d", i+1, m.Type, w.Type), ""
 		}
@@ -460,21 +574,15 @@ func compare(cs *wsCase, o observed, seed int, wantMsgs []message, wantPongs []f
 			return fmt.Sprintf("message %d delivered (type %d, %d bytes) but the specification delivers only %d message(s)", i+1, m.Type, len(m.Payload), len(wantMsgs)), "extra"
 		}
 		w := wantMsgs[i]
-		var want []byte
-		for _, f := range w.Frags {
-			want = append(want, ld.FillBytes(f.N, f.ID, seed)...)
-		}
-		if len(want) != w.Len {
-			rp.Bug("message %d: fragments sum to %d, len %d", i, len(want), w.Len)
-		}
+		want := wantPayload(w, seed)
 		if m.Type != w.Type {
 			return fmt.Sprintf("message %d has type %d, want %d", i+1, m.Type, w.Type), ""
 		}
 		if !bytes.Equal(m.Payload, want) {
 			return fmt.Sprintf("message %d payload differs: %s", i+1, rp.FirstDiff(m.Payload, want)), "payload"
 		}
-		if cs.Limit > 0 && int64(len(m.Payload)) > cs.Limit {
-			rp.Bug("specification delivers %d bytes with limit %d", len(m.Payload), cs.Limit)
+		if cs.Limit > 0 && int64(w.Len) > cs.Limit {
+			rp.Bug("specification delivers %d bytes with limit %d", w.Len, cs.Limit)
 		}
 	}
 	if len(o.Msgs) < len(wantMsgs) {
@@ -589,7 +697,25 @@ func cutOffsets(frameLen, headerLen int, thorough bool, seed int) []int {
 	return out
 }
 
-func deviationOf(cs *wsCase, kind string, o observed, v variant, payloadLens []int) string {
+func deviationOf(cs *wsCase, kind string, o observed, v variant, payloadLens []int, b0 []byte) string {
+	// reserved bits with the extension negotiated: the first frame the specification fails on has RSV1 set
+	if cs.Pmd && kind != "payload" && kind != "notsticky" {
+		for k, s := range cs.Steps {
+			if s.Abs {
+				break
+			}
+			if s.Failed == "protocol" {
+				if rsv := int(b0[k]>>4) & 7; rsv&4 != 0 && rsv&3 != 0 && (s.Op == 1 || s.Op == 2) {
+					return "C14/rsv1-shadows-reserved-bits"
+				} else if rsv == 4 && (s.Op == 0 || s.Op >= 8) {
+					return "C14/rsv1-on-non-first-frame-accepted"
+				}
+			}
+			if s.Failed != "no" {
+				break
+			}
+		}
+	}
 	// C14/control-needs-buffer: a control frame (legal: <= 125 bytes) longer than the configured read buffer was
 	// the first frame not taken in, and the read failed with an error of the reader's own
 	if cls, _ := classOf(o.Err); cls == "other" && v.ReadBuf > 0 && (kind == "missing" || kind == "pongs" || kind == "outcome") {
@@ -711,8 +837,27 @@ func replayCase(c *rp.Ctx, idx int, raw json.RawMessage) rp.Result {
 	lastStart, lastHdr := 0, 0
 	payloadLens := make([]int, len(cs.Steps))
 	for k, s := range cs.Steps {
-		f, h := expand(s, c.Seed)
+		f, h := expand(s, c.Seed, nil)
 		payloadLens[k] = len(f) - h
+	}
+	// the payloads of compressed messages are DEFLATE streams, cut where the peer fragments the message
+	override := make([][]byte, len(cs.Steps))
+	for _, g := range zGroups(cs.Steps) {
+		w := 0
+		for _, k := range g {
+			w += payloadLens[k]
+		}
+		if z, ok := zStream(w, g[0]+1, c.Seed); ok {
+			for _, k := range g {
+				override[k] = z[:payloadLens[k]:payloadLens[k]]
+				z = z[payloadLens[k]:]
+			}
+		}
+	}
+	b0 := make([]byte, len(cs.Steps))
+	for k, s := range cs.Steps {
+		f, h := expand(s, c.Seed, override[k])
+		b0[k] = f[0]
 		if k == len(cs.Steps)-1 {
 			lastStart, lastHdr = len(wire), h
 		}
@@ -724,7 +869,7 @@ func replayCase(c *rp.Ctx, idx int, raw json.RawMessage) rp.Result {
 
 	fail := func(what, kind string, v variant, where string, o observed) rp.Result {
 		return rp.Result{OK: false, What: fmt.Sprintf("%s role, limit %d, %d frame(s), %s, %s: %s", cs.Role, cs.Limit, len(cs.Steps), where, v, what),
-			Deviation: deviationOf(&cs, kind, o, v, payloadLens),
+			Deviation: deviationOf(&cs, kind, o, v, payloadLens, b0),
 			Observed:  map[string]interface{}{"messages": len(o.Msgs), "err": fmt.Sprint(o.Err), "wrote": fmt.Sprintf("% x", o.Wrote)}}
 	}
 
